@@ -36,6 +36,7 @@ fn main() {
         _ => Tier::Quick,
     };
     let mut replay: Option<String> = None;
+    let mut partial: Option<String> = None;
     let mut i = 1;
     while i < args.len() {
         match args[i].as_str() {
@@ -47,12 +48,32 @@ fn main() {
                 };
                 i += 2;
             }
+            "--partial" => {
+                partial = args.get(i + 1).cloned();
+                i += 2;
+            }
+            _ if id == "--MERGE" => i += 1,
             "--replay" => {
                 replay = args.get(i + 1).cloned();
                 i += 2;
             }
             other => common::machinery_failure(&format!("unknown argument {}", other)),
         }
+    }
+    if id == "--MERGE" {
+        // mmtk-verif --merge <ID> <partial files...>: combine the partial results of several
+        // build configurations (feature sets / metadata placements) into one evidence file
+        let pid = args.get(1).cloned().unwrap_or_default().to_uppercase();
+        let mut run = Run::new(&pid, tier);
+        let mut builds = vec![];
+        for f in args.iter().skip(2).filter(|a| !a.starts_with("--") && *a != "quick" && *a != "thorough") {
+            let s = std::fs::read_to_string(f).unwrap_or_else(|_| common::machinery_failure(&format!("cannot read partial result {}", f)));
+            let v: serde_json::Value = serde_json::from_str(&s).unwrap_or_else(|_| common::machinery_failure("partial result does not parse"));
+            builds.push(v["build"].clone());
+            run.absorb_child_json(&v);
+        }
+        run.set("builds", serde_json::Value::Array(builds));
+        run.finish();
     }
     let mut run = Run::new(&id, tier);
     if let Some(path) = replay {
@@ -63,5 +84,35 @@ fn main() {
         run.finish();
     }
     props::run(&id, &mut run);
+    if let Some(path) = partial {
+        // one build configuration of a multi-build check: hand the result to the merging run
+        let mut v = run.to_child_json();
+        v["build"] = serde_json::json!({"features": shadowvm::feature_set(), "placement": vm::PLACEMENT});
+        for x in v["violations"].as_array_mut().into_iter().flatten() {
+            let sig = format!("{}[{}]", x["signature"].as_str().unwrap_or(""), build_tag());
+            x["case"]["build"] = serde_json::json!(build_tag());
+            if build_tag() != "s1a" {
+                x["signature"] = serde_json::json!(sig);
+            }
+        }
+        if std::fs::write(&path, serde_json::to_string(&v).unwrap()).is_err() {
+            common::machinery_failure("cannot write partial result");
+        }
+        std::process::exit(0);
+    }
     run.finish();
+}
+
+/// Name of the build configuration this binary was compiled as (see `check`).
+pub fn build_tag() -> &'static str {
+    let b = cfg!(feature = "placement_b");
+    if cfg!(feature = "fs_s3") {
+        if b { "s3b" } else { "s3a" }
+    } else if cfg!(feature = "fs_s2") {
+        if b { "s2b" } else { "s2a" }
+    } else if b {
+        "s1b"
+    } else {
+        "s1a"
+    }
 }
